@@ -57,7 +57,20 @@ func TestCheck(t *testing.T) {
 		g.WAdd, g.WReplace, g.WDelete = 6, 3, 2
 		g.WTable = [5]int{4, 3, 3, 5, 2}
 		g.Rich = false
-		x := mon.NewRIBMon(g.S, false)
+		via := 0
+		if i%3 == 2 {
+			via = 1
+			if i%60 == 2 {
+				via = 2
+			}
+		}
+		x, err := mon.NewRIBMonVia(g.S, false, via)
+		if err != nil {
+			run.Fatal(err.Error())
+			return
+		}
+		defer x.Close()
+		run.Seen("programmed_via", mon.ViaName(via))
 		n := 10 + r.Intn(50)
 		var probs []string
 		// Seed the RIB with all next-hops so that references resolve quickly.
